@@ -517,6 +517,13 @@ func (c *chroniclerV2) ensureWriter() error {
 	var writer *v2.FileWriter
 	var err error
 
+	// The parent folder was created when the swamp was opened, but destroying
+	// another swamp removes empty parent folders: if this swamp has not written
+	// anything yet, its (shared, still empty) folder may be gone by now.
+	if err = os.MkdirAll(filepath.Dir(c.hydFilePath), os.ModePerm); err != nil {
+		return err
+	}
+
 	if c.swampName != "" {
 		// New file: use V3 format with name in header area. For an existing
 		// file the name is only used if the file has to be started over
